@@ -14,6 +14,7 @@ import asyncio
 import dataclasses
 import json
 import math
+import struct
 from typing import Any
 from unittest.mock import AsyncMock, patch
 
@@ -25,6 +26,7 @@ from vk.strategies import valspec as V
 from xknx import XKNX
 from xknx.core.connection_state import XknxConnectionState, XknxConnectionType
 from xknx.dpt import DPTArray, DPTBase, DPTBinary
+from xknx.dpt.dpt import DPTComplexData, DPTEnumData
 from xknx.exceptions import ConversionError, CouldNotParseAddress, CouldNotParseTelegram
 from xknx.mcp import (
     DecodeDptPayloadInput,
@@ -199,6 +201,91 @@ def dpt_ids(dpt: type[DPTBase]) -> list[str]:
     return ids
 
 
+# ---- independent references for a decoded value ---------------------------------------------
+
+_RESOLVED: dict[str, type[DPTBase]] = {}
+
+
+def resolved(vt: str) -> type[DPTBase]:
+    """The transcoder class a value_type string names (what the tools work with)."""
+    if vt not in _RESOLVED:
+        _RESOLVED[vt] = DPTBase.get_dpt(vt)
+    return _RESOLVED[vt]
+
+
+def documented_json_form(val: Any) -> Any:
+    """The JSON shape the tools document for a transcoder value: complex values as their dict form,
+    enum members as lower-cased name, tuples as lists, JSON natives as they are - then a JSON cycle."""
+    if isinstance(val, DPTComplexData):
+        val = val.as_dict()
+    elif isinstance(val, DPTEnumData):
+        val = val.name.lower()
+    elif isinstance(val, tuple):
+        val = [documented_json_form(x) for x in val]
+    return json.loads(json.dumps(val))
+
+
+def raw_payload(T: type[DPTBase], payload: int | list[int]) -> DPTArray | DPTBinary:
+    if T.payload_type is DPTBinary:
+        return DPTBinary(payload if isinstance(payload, int) else payload[0])
+    return DPTArray(tuple(payload) if isinstance(payload, list) else (payload,))
+
+
+def transcoder_value(T: type[DPTBase], payload: int | list[int]) -> tuple[bool, Any]:
+    """(accepted?, value in documented JSON form) straight from the DPT transcoder - not through the tool."""
+    try:
+        return True, documented_json_form(T.from_knx(raw_payload(T, payload)))
+    except PAYLOAD_REJECTED:
+        return False, None
+
+
+REL_7_DIGITS = 6e-7  # rounding to 7 significant digits moves a value by at most 5e-7 of its magnitude
+
+
+def float32_of(payload: list[int]) -> float:
+    """IEEE 754 single, big endian: what the 4 octets of a DPT 14.xxx payload mean."""
+    return struct.unpack(">f", bytes(payload))[0]
+
+
+def close_to_float32(v: Any, f32: float) -> bool:
+    """v is the float32 value up to the documented 7 significant digits (NaN / inf exactly)."""
+    if isinstance(v, bool) or not isinstance(v, (int, float)):
+        return False
+    if math.isnan(f32):
+        return isinstance(v, float) and math.isnan(v)
+    if math.isinf(f32) or f32 == 0:
+        return v == f32
+    return abs(v - f32) <= REL_7_DIGITS * abs(f32)
+
+
+def is_float32_type(T: type[DPTBase]) -> bool:
+    return T.dpt_main_number == 14 and T.payload_type is DPTArray and T.payload_length == 4
+
+
+def codec_owner_name(T: type[DPTBase]) -> str:
+    """Class that implements the decoder (root-cause key shared by all subtypes of one codec)."""
+    for c in T.__mro__:
+        if "from_knx" in c.__dict__:
+            return c.__name__
+    return T.__name__
+
+
+def compare_with_references(ctx, tool: str, T: type[DPTBase], payload: int | list[int], got_ok: bool, got: Any, inp: dict) -> tuple[bool, Any]:
+    """The tool's reading of a payload against (1) the transcoder's own from_knx in documented JSON form and
+    (2) for DPT 14.xxx an independent float32 interpretation of the octets.  Returns the transcoder's (accepted?, value)."""
+    ref_ok, ref = transcoder_value(T, payload)
+    owner = codec_owner_name(T)
+    if ref_ok != got_ok:
+        ctx.fail(f"C45:decode-differs-from-transcoder:{tool}:{owner}", inp, f"{T.__name__} payload {payload!r}: transcoder {'gives ' + repr(ref) if ref_ok else 'rejects it'}, {tool} {'gives ' + repr(got) if got_ok else 'rejects it'}")
+    elif ref_ok and not same(got, ref):
+        ctx.fail(f"C45:decode-differs-from-transcoder:{tool}:{owner}", inp, f"{T.__name__} payload {payload!r}: transcoder decodes {ref!r}, {tool} reports {got!r}")
+    if got_ok and is_float32_type(T) and isinstance(payload, list) and len(payload) == 4:
+        f32 = float32_of(payload)
+        if not close_to_float32(got, f32):
+            ctx.fail(f"C45:float32-value-altered:{tool}", inp, f"{T.__name__} payload {bytes(payload).hex()} is the IEEE single {f32!r}; {tool} reports {got!r} (more than 7 significant digits away)")
+    return ref_ok, ref
+
+
 def payload_forms(dpt: type[DPTBase], payload: int | list[int]) -> list[int | list[int]]:
     """Every documented spelling of one raw payload: "list of byte integers, or a single integer for
     6-bit DPTs" - so a 6-bit value v may come as the bare int v (what encode_dpt_payload emits) or as [v];
@@ -254,29 +341,40 @@ def decode_all_forms(ctx, dpt: type[DPTBase], vt: str, payload: int | list[int],
 def roundtrip(ctx, dpt: type[DPTBase], payload: int | list[int], count: bool = True) -> None:
     """payload: int for DPTBinary types, list of octets otherwise."""
     vt = dpt.dpt_number_str()
+    T = resolved(vt)
     inp = {"dpt": dpt.__name__, "payload": payload}
-    ok, v = decode_all_forms(ctx, dpt, vt, payload, inp, "image payload")
-    if not ok:
+    ok, got = decode_all_forms(ctx, dpt, vt, payload, inp, "image payload")
+    # the image value comes from the transcoder (and float32), not from the tool under test
+    ref_ok, v = compare_with_references(ctx, "decode_dpt_payload", T, payload, ok, got, inp)
+    if not ref_ok:
         if count:
             ctx.case(None, nontrivial=False, cls="image:payload-rejected")
         return
     nontrivial = v not in (0, 0.0, False, "", None) and payload not in (0, [0] * (len(payload) if isinstance(payload, list) else 0))
     if count:
         raw0 = dpt.payload_type is DPTBinary and payload in (0, [0])
-        ctx.case((dpt.__name__, repr(payload)), nontrivial=nontrivial or raw0, cls=["image:decoded"] + (["image:binary-raw-0"] if raw0 else []))
-    # v already went through a JSON cycle; hand it to the encoder as a client would
+        labels = ["image:decoded"] + (["image:binary-raw-0"] if raw0 else [])
+        if is_float32_type(T) and isinstance(v, float) and v == v and 0 < abs(v) < 1e-3:
+            labels.append("image:float32-small-magnitude")
+        ctx.case((dpt.__name__, repr(payload)), nontrivial=nontrivial or raw0, cls=labels)
+    encode_decode(ctx, dpt, vt, T, v, inp, f"decode image of {payload!r}")
+
+
+def encode_decode(ctx, dpt: type[DPTBase], vt: str, T: type[DPTBase], v: Any, inp: dict, origin: str, tol: float | None = None) -> None:
+    """encode_dpt_payload(v) -> the emitted payload verbatim (JSON cycle of the whole result) ->
+    decode_dpt_payload in every form -> v again.  v is a JSON-native value that did NOT come out of the
+    tool's decoder.  tol: for directly given numbers, the distance to the nearest representable value."""
     try:
         enc = drive(encode_dpt_payload(EncodeDptPayloadInput(value=v, value_type=vt)))
     except ConversionError as e:
-        ctx.fail(f"C45:image-value-rejected:{dpt.__name__}", inp, f"decoded {v!r} is refused by encode_dpt_payload: {e}"[:600])
+        ctx.fail(f"C45:image-value-rejected:{dpt.__name__}", inp, f"{origin}: {v!r} is refused by encode_dpt_payload: {e}"[:600])
         return
     except Exception as e:  # noqa: BLE001
-        ctx.fail(f"C45:encode-exc:{exc_site(e)}", inp, f"decoded {v!r}: {type(e).__name__}: {e}"[:600])
+        ctx.fail(f"C45:encode-exc:{exc_site(e)}", inp, f"{origin}: {v!r}: {type(e).__name__}: {e}"[:600])
         return
     e = check_result(ctx, "encode_dpt_payload", enc, inp)
     if e is None:
         return
-    # the encoder's own output, verbatim, after the JSON cycle of the whole result
     p2 = json.loads(json.dumps(e))["payload"]
     if isinstance(p2, bool) or not (isinstance(p2, int) or (isinstance(p2, list) and all(isinstance(b, int) and not isinstance(b, bool) for b in p2))):
         ctx.fail("C45:encoded-payload-shape:encode_dpt_payload", inp, f"{dpt.__name__}: encoded payload {p2!r} is neither an int nor a list of ints")
@@ -286,10 +384,59 @@ def roundtrip(ctx, dpt: type[DPTBase], payload: int | list[int], count: bool = T
         return
     ok2, v2 = decode_all_forms(ctx, dpt, vt, p2, inp, f"payload {p2!r} emitted by encode_dpt_payload for {v!r}")
     if not ok2:
-        ctx.fail(f"C45:reencoded-payload-rejected:{dpt.__name__}", inp, f"{v!r} -> encode -> {p2!r}, which decode_dpt_payload does not read back")
+        ctx.fail(f"C45:reencoded-payload-rejected:{dpt.__name__}", inp, f"{origin}: {v!r} -> encode -> {p2!r}, which decode_dpt_payload does not read back")
         return
-    if not same(v2, v):
-        ctx.fail(f"C45:roundtrip-neq:{dpt.__name__}", inp, f"decode({payload!r}) = {v!r}; encode -> {p2!r}; decode -> {v2!r}")
+    compare_with_references(ctx, "decode_dpt_payload", T, p2, ok2, v2, inp)
+    if tol is None:
+        if not same(v2, v):
+            ctx.fail(f"C45:roundtrip-neq:{codec_owner_name(T)}", inp, f"{dpt.__name__}, {origin}: {v!r} -> encode -> {p2!r} -> decode -> {v2!r}")
+    elif isinstance(v2, bool) or not isinstance(v2, (int, float)) or not abs(v2 - v) <= tol:
+        ctx.fail(f"C45:direct-value-not-returned:{codec_owner_name(T)}", inp, f"{dpt.__name__}, {origin}: {v!r} -> encode -> {p2!r} -> decode -> {v2!r} (allowed distance {tol!r})")
+
+
+# values of 4-octet float types as a caller would give them: everyday ones, small magnitudes over many
+# decades (SI base units of small quantities), float32 subnormals, large ones
+FLOAT32_VALUES = [
+    0.0, 1.0, -1.0, 0.1, 0.5, 21.25, 230.5, -224.95, 1234567.0, -1.5e12, 3.0e38, -3.0e38,
+    1e-3, 1.23456e-3, 0.00123456, -4.5e-4, 9.87654e-5, 3.3e-6, 4.7e-9, -2.2e-9, 1e-12, 6.62607e-15, 1.6e-19, -1.6e-19,
+    9.10938e-22, 1.38065e-23, 1e-27, 6.62607e-30, 1.2345678e-7, 7.654321e-10,
+    1.1754944e-38, 5.9e-39, 1e-40, 1e-44, 1.4e-45,
+]
+
+
+def float32_payloads() -> list[list[int]]:
+    out = [list(struct.pack(">f", x)) for x in FLOAT32_VALUES]
+    out += [[0x7F, 0x80, 0, 0], [0xFF, 0x80, 0, 0], [0x7F, 0xC0, 0, 0], [0x00, 0x00, 0x00, 0x01], [0x80, 0x00, 0x00, 0x01], [0x00, 0x7F, 0xFF, 0xFF], [0x00, 0x80, 0x00, 0x00]]
+    # one value per decade 1e-37 .. 1e-1 with a full 7-digit mantissa
+    out += [list(struct.pack(">f", 1.234567 * 10.0**-k)) for k in range(1, 38, 3)]
+    return out
+
+
+def direct_values(ctx, dpt: type[DPTBase], count: bool = True) -> None:
+    """encode -> decode for values given directly (not obtained from any decode)."""
+    vt = dpt.dpt_number_str()
+    T = resolved(vt)
+    fam = V.family(T)
+    cases: list[tuple[Any, float | None]] = []
+    if is_float32_type(T):
+        for x in FLOAT32_VALUES:
+            f32 = float32_of(list(struct.pack(">f", x)))
+            cases.append((x, abs(x - f32) + REL_7_DIGITS * abs(f32)))
+    elif fam == "numeric":
+        lo, hi, res = T.value_min, T.value_max, T.resolution
+        picks = {lo, hi, lo + res, hi - res, lo + (hi - lo) // 2 if isinstance(lo, int) and isinstance(hi, int) else (lo + hi) / 2, 0, res, 3 * res, 7 * res, -res}
+        for x in sorted(picks):
+            if lo <= x <= hi:
+                # nearest representable value: half a step; the 2-octet float (DPT 9) has an 11 bit mantissa
+                step = max(res, abs(x) / 1024) if T.dpt_main_number == 9 else res
+                cases.append((x, step * 0.5 + 1e-9 * max(1.0, abs(x))))
+    elif fam == "enum":
+        cases = [(m.name.lower(), None) for m in T.data_type]  # type: ignore[attr-defined]
+    for x, tol in cases:
+        inp = {"dpt": dpt.__name__, "direct": V.F(x) if isinstance(x, float) else x}
+        if count:
+            ctx.case(("direct", dpt.__name__, repr(x)), nontrivial=x not in (0, 0.0), cls="direct-value")
+        encode_decode(ctx, dpt, vt, T, x, inp, "value given directly", tol=tol)
 
 
 _EDGE16 = [0, 1, 0x1C, 0x1D, 0xFF, 0x100, 0x7FF, 0x800, 0x0C1A, 0x7FFE, 0x7FFF, 0x8000, 0x8001, 0x87FF, 0xF800, 0xFFFE, 0xFFFF]
@@ -337,6 +484,8 @@ def image_payloads(dpt: type[DPTBase], quick: bool) -> list[Any]:
                 p[pos] = val
                 out.append(p)
     out += [[0xFF] * n, [0x7F] * n, [0x80] * n, [0x7F, 0x80] + [0] * (n - 2), [0x7F, 0xC0] + [0] * (n - 2), [0xFF, 0x80] + [0] * (n - 2)]
+    if dpt.dpt_main_number == 14 and n == 4:
+        out = float32_payloads() + out  # everyday values, small magnitudes in many decades, subnormals
     return out
 
 
@@ -350,6 +499,7 @@ def _image_shard(ctx, nshards: int) -> None:
             roundtrip(ctx, dpt, p)
             if j == len(ps) // 3 and i % 23 == 0:
                 ctx.sample({"dpt": dpt.__name__, "payload": p})
+        direct_values(ctx, dpt)
         ctx.classes[f"family:{V.family(dpt)}"] += len(ps)
 
 
@@ -563,6 +713,12 @@ def check_bus_tool(ctx, case: dict, count: bool = True) -> None:
         if d is not None and tool == "read":
             if d["responded"] != (case.get("payload") is not None):
                 ctx.fail("C45:read-responded-flag", inp, repr(d)[:300])
+            if dpt is not None and case.get("payload") is not None:
+                pl = case["payload"]
+                T = resolved(vt)
+                # the responder's payload object is read by the transcoder itself
+                if (T.payload_type is DPTBinary) == isinstance(pl, int):
+                    compare_with_references(ctx, "read_group_value", T, pl & 0x3F if isinstance(pl, int) else [b & 0xFF for b in pl], True, json.loads(json.dumps(d))["value"], inp)
             if dpt is None and case.get("payload") is not None:
                 want = case["payload"] & 0x3F if isinstance(case["payload"], int) else [b & 0xFF for b in case["payload"]]
                 if d["value"] != want:
@@ -604,7 +760,8 @@ def _read_image_shard(ctx, nshards: int) -> None:
             continue
         ps = image_payloads(dpt, True)
         stride = max(1, len(ps) // (12 if ctx.quick else 120))
-        for p in ps[::stride]:
+        small = float32_payloads()[12:30:3] if dpt.dpt_main_number == 14 and dpt.payload_length == 4 else []
+        for p in small + ps[::stride]:
             check_bus_tool(ctx, {"tool": "read", "ga": G, "payload": p, "dpt": dpt.__name__})
 
 
@@ -655,7 +812,9 @@ def run(ctx) -> None:
 
 
 def replay(ctx, case) -> None:
-    if "payload" in case and "dpt" in case and "tool" not in case:
+    if "direct" in case and "dpt" in case:
+        direct_values(ctx, V.dpt_by_name(case["dpt"]), count=False)
+    elif "payload" in case and "dpt" in case and "tool" not in case:
         roundtrip(ctx, V.dpt_by_name(case["dpt"]), case["payload"], count=False)
     elif "limit" in case:
         check_pages(ctx, case, count=False)
